@@ -34,8 +34,9 @@ Record rstate := mkRd { rd_spec : rspec; rd_fs : list filt; rd_offset : N;
                         rd_skipped : N; rd_cursor : option bytes }.
 
 Record otx := mkTx { t_ws : list wentry; t_rs : readset; t_rds : list rstate;
-                     (* set when GetWithPrefix returned an entry of the own write set (for
-                        which the code records nothing) *)
+                     (* ghost flag (not in the code): set when GetWithPrefix returned an entry of
+                        the own write set other than the prefix itself; the code records nothing
+                        for it, although a smaller key with the prefix may get committed *)
                      t_pown : bool }.
 Definition tx_empty : otx := mkTx [] rs_empty [] false.
 
@@ -105,7 +106,8 @@ Definition do_get (s0 : state) (tx : otx) (k : bytes) (fs : list filt) : otx * o
 Definition do_pget (s0 : state) (tx : otx) (prefix neq : bytes) (fs : list filt) : otx * obs :=
   match get_with_prefix fs prefix neq (view s0 (t_ws tx)) with
   | None => (add_pget tx (mkXP prefix neq fs [] 0), BNotFound)
-  | Some e => if own e then (mkTx (t_ws tx) (t_rs tx) (t_rds tx) true, BFound e)
+  | Some e => if own e
+              then (mkTx (t_ws tx) (t_rs tx) (t_rds tx) (t_pown tx || negb (keq (e_key e) prefix)), BFound e)
               else (add_pget tx (mkXP prefix neq fs (e_key e) (e_tx e)), BFound e)
   end.
 
